@@ -42,13 +42,11 @@ TOL = 2.0 ** -18
 W = 2 ** 32
 
 STATED_NOT_PROVED = {
-    "C01": ["Primitiv.C01.Arith.pown_bw_is_derivative_full (false at x = 0 for k >= 0 on the pinned tree: witness pown_bw_zero_witness)",
-            "Primitiv.C01.Arith.MaxPool.adjoint_full (flat-index form of MaxPool.adjoint)"],
-    "C02": ["Primitiv.C02.Arith.conv2d_spec_full (conv2d_spec in the textbook form, window loops reflected k = K-1-w)",
-            "Primitiv.C02.Arith.logsumexp_bounds_full (running value between max x_i and max x_i + log n)"],
-    "C03": ["Primitiv.C03.Arith.conv2d_batch_law_full", "Primitiv.C03.Arith.max_pool2d_batch_law_full"],
+    "C01": ["Primitiv.C01.Arith.pown_bw_is_derivative_full (false at x = 0 for k >= 0 on the pinned tree: witness pown_bw_zero_witness)"],
+    "C02": [],
+    "C03": [],
     "C08": [],
-    "C11": ["Primitiv.C11.Arith.front_end_guard_full (the dimension hypotheses of the bounds theorems follow from the front-end guard for every obtainable Shape)"],
+    "C11": [],
 }
 
 
